@@ -258,6 +258,21 @@ func c06Veto(c *caseCtx) {
 	c06Run(c, genRequest(c.rng, o))
 }
 
+// "human" weights in 0.05 steps, integer performances and thresholds: credibilities land exactly on cut levels, so a
+// weight total that differs in the last bit (summed in another order) changes the indices
+func c06Decimal(c *caseCtx) {
+	g := genRequest(c.rng, genOpts{method: "electreIII", minAlt: 4, maxAlt: 7, minCrit: 3, maxCrit: 6, allCons: 1, profile: profTies, vetoHeavy: c.idx%3 == 0})
+	mp := g.M["methodParameters"].(M)
+	for _, e := range mp["electreCriteria"].(M) {
+		e.(M)["k"] = float64(1+c.rng.Intn(12)) * 0.05
+	}
+	if c.idx%4 != 0 {
+		delete(mp, "electreDistillation")
+	}
+	c.count("decimal_weight_instances", 1)
+	c06Run(c, g)
+}
+
 // large problems with ties at high positions: index bookkeeping beyond 64 alternatives
 func c06Large(c *caseCtx) {
 	n := 65 + c.rng.Intn(16)
@@ -499,6 +514,8 @@ func init() {
 				note: "65..80 alternatives, tie-heavy, three identical dominating alternatives at the highest positions"},
 			{name: "vetoDominance", n: tierN(60000, 800000), unit: 5000, run: c06Veto, floors: map[string]int64{"dominance_pairs": 10000},
 				note: "every criterion has q, p and v; a dominated copy is planted in half of the instances"},
+			{name: "decimalWeights", n: tierN(6000, 100000), unit: 1500, run: c06Decimal, floors: map[string]int64{"decimal_weight_instances": 5000},
+				note: ">=3 criteria with k in 0.05 steps, integer performances, crisp integer thresholds, mostly the default distillation function: comparisons sit exactly on their boundary"},
 			{name: "relations-service", n: tierN(4000, 60000), unit: 2000, run: c06Case, service: true,
 				note: "the same generator and oracle as the stream named in front of the dash, but every request goes through decideHandler of main.go in-process (gin binding, the handler's own request object) after a history of 1..3 unrelated requests (accepted and rejected)"},
 			{name: "relations", n: tierN(20000, 600000), unit: 2500, run: c06Case,
